@@ -24,9 +24,15 @@ type sleepTransaction struct {
 	sleepDuration       time.Duration
 	state               transactionState
 	timer               *time.Timer
-	// mu guards disconnect, disconnectResendNum, state and timer: they are
-	// used by the caller of Sleep(), by the client's receive loop and by
-	// timer goroutines.
+	// finished is set (under mu) as the first step of Success()/Fail():
+	// from that moment on the transaction sends nothing and sets up no
+	// timer. Packets are sent with mu held, hence a packet is either sent
+	// before the transaction finishes or not at all.
+	finished bool
+	// mu guards disconnect, disconnectResendNum, state, timer and
+	// finished: they are used by the caller of Sleep(), by the client's
+	// receive loop and by timer goroutines. It is never held while calling
+	// client.setState(), which can block.
 	mu sync.Mutex
 }
 
@@ -61,22 +67,30 @@ func newSleepTransaction(client *Client, sleepDuration time.Duration) *sleepTran
 	return t
 }
 
+// finish marks the transaction finished and stops its timer. It returns false
+// if the transaction has been finished already.
+func (t *sleepTransaction) finish() bool {
+	t.mu.Lock()
+	defer t.mu.Unlock()
+	if t.finished {
+		return false
+	}
+	t.finished = true
+	if t.timer != nil {
+		t.timer.Stop()
+	}
+	return true
+}
+
 func (t *sleepTransaction) Success() {
-	t.stopTimer()
-	t.TransactionBase.Success()
+	if t.finish() {
+		t.TransactionBase.Success()
+	}
 }
 
 func (t *sleepTransaction) Fail(e error) {
-	t.stopTimer()
-	t.TransactionBase.Fail(e)
-}
-
-func (t *sleepTransaction) isDone() bool {
-	select {
-	case <-t.Done():
-		return true
-	default:
-		return false
+	if t.finish() {
+		t.TransactionBase.Fail(e)
 	}
 }
 
@@ -85,17 +99,20 @@ func (t *sleepTransaction) Sleep() error {
 	switch state {
 	case util.StateActive:
 		duration := uint16(t.sleepDuration / time.Second)
-		// The retry timer is set up before the packet is sent so that
-		// the reply cannot be handled before the timer exists.
-		// t.mu is never held while calling client.send() or
-		// client.setState(): both can block.
+		// The retry timer is set up and the packet is sent in one piece,
+		// so that the reply cannot be handled before the timer exists.
 		t.mu.Lock()
+		if t.finished {
+			t.mu.Unlock()
+			return t.Err()
+		}
 		disconnect := pkts1.NewDisconnect(duration)
 		t.disconnect = disconnect
 		t.state = awaitingDisconnect
 		t.timer = time.AfterFunc(t.retryDelay, t.resendDisconnect)
+		err := t.client.send(disconnect)
 		t.mu.Unlock()
-		if err := t.client.send(disconnect); err != nil {
+		if err != nil {
 			t.Fail(err)
 			return err
 		}
@@ -109,7 +126,7 @@ func (t *sleepTransaction) Sleep() error {
 
 func (t *sleepTransaction) resendDisconnect() {
 	t.mu.Lock()
-	if t.isDone() || t.state != awaitingDisconnect || t.disconnect == nil {
+	if t.finished || t.state != awaitingDisconnect || t.disconnect == nil {
 		// The DISCONNECT was answered (or the transaction finished)
 		// while this timer was firing.
 		t.mu.Unlock()
@@ -123,17 +140,17 @@ func (t *sleepTransaction) resendDisconnect() {
 		return
 	}
 	t.log.Debug("DISCONNECT resend no. %d", t.disconnectResendNum)
-	disconnect := t.disconnect
 	t.timer = time.AfterFunc(t.retryDelay, t.resendDisconnect)
+	err := t.client.send(t.disconnect)
 	t.mu.Unlock()
-	if err := t.client.send(disconnect); err != nil {
+	if err != nil {
 		t.Fail(err)
 	}
 }
 
 func (t *sleepTransaction) Disconnect(disconnect *pkts1.Disconnect) {
 	t.mu.Lock()
-	if t.isDone() || t.state != awaitingDisconnect || t.disconnect == nil {
+	if t.finished || t.state != awaitingDisconnect || t.disconnect == nil {
 		state := t.state
 		t.mu.Unlock()
 		t.log.Debug("Unexpected packet in %d: %v", state, disconnect)
@@ -167,39 +184,40 @@ func (t *sleepTransaction) stopTimer() {
 	}
 }
 
-// setTimer sets a new timer unless the transaction has finished in the
-// meantime (the completion callback has already stopped the timer).
-func (t *sleepTransaction) setTimer(d time.Duration, f func()) {
-	t.mu.Lock()
-	defer t.mu.Unlock()
-	if t.isDone() {
-		return
-	}
-	t.timer = time.AfterFunc(d, f)
-}
-
 func (t *sleepTransaction) startSleep() {
 	t.log.Debug("Sleeping for %v...", t.sleepDuration)
 	t.client.setState(util.StateAsleep)
-	t.setTimer(t.sleepDuration, t.wakeup)
+	t.mu.Lock()
+	defer t.mu.Unlock()
+	if t.finished {
+		return
+	}
+	t.timer = time.AfterFunc(t.sleepDuration, t.wakeup)
 }
 
 func (t *sleepTransaction) wakeup() {
 	t.mu.Lock()
-	if t.isDone() {
+	finished := t.finished
+	t.mu.Unlock()
+	if finished {
+		return
+	}
+	t.client.setState(util.StateAwake)
+	t.log.Debug("Awake")
+
+	t.mu.Lock()
+	if t.finished {
 		t.mu.Unlock()
 		return
 	}
 	t.state = awaitingPingresp
-	t.mu.Unlock()
-	t.client.setState(util.StateAwake)
-	t.log.Debug("Awake")
-	ping := pkts1.NewPingreq([]byte(t.client.cfg.ClientID))
-	if err := t.client.send(ping); err != nil {
-		t.Fail(err)
-		return
-	}
-	t.setTimer(maxPingrespWait, func() {
+	t.timer = time.AfterFunc(maxPingrespWait, func() {
 		t.Fail(fmt.Errorf("did not receive PINGRESP in %v", maxPingrespWait))
 	})
+	ping := pkts1.NewPingreq([]byte(t.client.cfg.ClientID))
+	err := t.client.send(ping)
+	t.mu.Unlock()
+	if err != nil {
+		t.Fail(err)
+	}
 }
